@@ -8,7 +8,7 @@ use text_utils::edit::{distance, distances, operations, prefix_distance, EditOpe
 fn one(a0: &str, b0: &str, g: bool, swap: bool, sid: bool) -> Value {
     // both texts live in buffers that held other texts of the same byte length before (see refill_with)
     let (mut ba, mut bb) = (String::with_capacity(a0.len() + 8), String::with_capacity(b0.len() + 8));
-    refill_with(&mut ba, a0, |d| { let _ = guard(|| distance(d, d, g, swap, sid, false)); });
+    refill_with(&mut ba, a0, |d| { let _ = guard(|| distance(d, "x", g, swap, sid, false)); });
     refill_with(&mut bb, b0, |d| { let _ = guard(|| distance(d, "x", g, swap, sid, false)); });
     let (a, b) = (ba.as_str(), bb.as_str());
     let mut int = Interner::default();
@@ -97,6 +97,14 @@ pub fn gen(seed: u64, n: usize) -> Vec<Value> {
         let pool = &pools[rng.random_range(0..pools.len())];
         // a few pairs have one long side: lengths and distances that do not fit into 8 bits (the other side is short, so
         // the table stays small; one pair in 8000 - thorough tier only - is long on both sides)
+        // one pair per run: tens of thousands of characters against at most two (distances beyond 16 bits, a table of 3 columns)
+        if i == 23 {
+            let la = rng.random_range(66000..=70000);
+            let a: String = (0..la).map(|k| if k % 977 == 0 { "b" } else { "a" }).collect();
+            let b = ["", "a", "ba"][rng.random_range(0..3)];
+            out.push(json!({"as": a, "bs": b, "g": rng.random_bool(0.5), "swap": rng.random_bool(0.5), "sid": false}));
+            continue;
+        }
         let long = i % 250 == 17 || i % 8000 == 2017;
         if long {
             let la = rng.random_range(257..=300);
